@@ -87,7 +87,30 @@ type Case struct {
 	Quiet     bool   `json:"quiet_after_signal"` // SIGTERM only: the clients start no further requests once the signal is sent
 	Pow2Cuts  bool   `json:"pow2_cuts"`          // SIGHUP only: every bolt frame sent in pieces is cut after 64/128/256 bytes (else every fourth)
 	Holder    string `json:"holder_proto"`       // SIGTERM only: protocol of one more request that the upstream holds across the signal until every listener refuses connects
+	// Bind is the address the listeners are configured with: 127.0.0.1 (also when empty), 0.0.0.0 or [::] (a dual-stack
+	// socket); the clients always connect to 127.0.0.1, so behind a wildcard listener the connection's local address is
+	// not the listener's configured one. Placed by the case index like the strata, not drawn by genCase.
+	Bind string `json:"listener_bind,omitempty"`
 }
+
+// bindChoices: the wildcard forms are used only where the sandbox's loopback serves them (checked once).
+var bindChoices = func() []string {
+	out := []string{"127.0.0.1"}
+	for _, b := range []string{"0.0.0.0", "[::]"} {
+		l, err := net.Listen("tcp", b+":0")
+		if err != nil {
+			continue
+		}
+		_, port, _ := net.SplitHostPort(l.Addr().String())
+		c, err := net.DialTimeout("tcp", "127.0.0.1:"+port, time.Second)
+		if err == nil {
+			_ = c.Close()
+			out = append(out, b)
+		}
+		_ = l.Close()
+	}
+	return out
+}()
 
 var sizeBoundaries = []int{2, 255, 256, 1023, 1024, 4095, 4096, 8192, 16384, 40000}
 
@@ -595,6 +618,14 @@ func (r *run) allRefused() bool {
 
 // ---------------------------------------------------------------- config + start
 
+// bindAddr is the configured address of a listener; clients connect to r.addrs (127.0.0.1:port).
+func (r *run) bindAddr(proto string) string {
+	if r.cs.Bind == "" || r.cs.Bind == "127.0.0.1" {
+		return r.addrs[proto]
+	}
+	return fmt.Sprintf("%s:%d", r.cs.Bind, portOf(r.addrs[proto]))
+}
+
 func (r *run) writeConfig() (string, error) {
 	var routers, listeners, clusters []interface{}
 	for _, proto := range protos {
@@ -618,7 +649,7 @@ func (r *run) writeConfig() (string, error) {
 			}},
 		})
 		listeners = append(listeners, map[string]interface{}{
-			"name": "ln_" + proto, "address": r.addrs[proto], "bind_port": true,
+			"name": "ln_" + proto, "address": r.bindAddr(proto), "bind_port": true,
 			"filter_chains": []interface{}{map[string]interface{}{"filters": []interface{}{map[string]interface{}{"type": "proxy", "config": px}}}},
 		})
 		clusters = append(clusters, map[string]interface{}{
